@@ -342,6 +342,11 @@ impl Context {
         let ctx = self;
         let mut parent = task.parent();
         while let Some(task) = parent {
+            // an ancestor that has already ended keeps its final state
+            if task.state().is_completed() {
+                parent = task.parent();
+                continue;
+            }
             task.set_state(TaskState::Aborted);
             ctx.set_task(&task);
             ctx.emit_task(&ctx.task())?;
@@ -401,6 +406,10 @@ impl Context {
             if task.state().is_error() {
                 if let Some(err) = task.err() {
                     if let Some(parent) = task.parent() {
+                        // an ancestor that has already ended keeps its final state
+                        if parent.state().is_completed() {
+                            return Ok(());
+                        }
                         parent.set_err(&err);
                         return parent.error(self);
                     }
